@@ -71,6 +71,13 @@ def _wrappings(parts):
         # the first key is selected directly and again inside a later fragment (merged): its position must not move
         yield "dup-in-spread", "mutation { %s ...Rest } fragment Rest on Mutation { %s %s }" % (parts[0], " ".join(parts[1:]), parts[0])
         yield "dup-in-inline", "mutation { %s ... on Mutation { %s %s } }" % (parts[0], " ".join(parts[1:]), parts[0])
+        # the FIRST occurrence of a key is switched off, a later one is live: the key takes the later position
+        head = parts[0]
+        cut = head.index(" {") if " {" in head else len(head)
+        yield "skipped-first-occurrence", "mutation ($t: Boolean = true) { %s @skip(if: $t)%s %s %s }" % (head[:cut], head[cut:], " ".join(parts[1:]), head)
+        # introspection disabled: the meta field is not executed and must not shift the other keys
+        yield "typename-disabled", "mutation { __typename %s }" % plain
+        yield "typename-disabled-middle", "mutation { %s __typename %s }" % (parts[0], " ".join(parts[1:]))
         # a skipped top-level field between the others: it must not run at all (no side effect)
         yield "skip-between", "mutation ($t: Boolean = true) { %s zz: m3 @skip(if: $t) %s }" % (parts[0], " ".join(parts[1:]))
         # the operation is one of several in the document, selected by name; the decoy lists the fields reversed
@@ -122,6 +129,10 @@ def cases(tier):
                             yield c2
                         if wname == "named-operation":
                             c["operation_name"] = "Wanted"
+                        if wname == "skipped-first-occurrence":
+                            c["keys"] = keys[1:] + keys[:1]
+                        if wname.startswith("typename-disabled"):
+                            c["disable_introspection"] = True
                         if wname == "skip-between":
                             c["custom"]["Mutation.m3"] = c["custom"].get("Mutation.m3", "async")
                         yield c
@@ -184,7 +195,7 @@ def check_case(case, st):
 
     b = BOUNDS[st.tier]
     out = []
-    base = {"query": case["query"], "custom": case["custom"], "sdl": case.get("sdl", "full"), "operation_name": case.get("operation_name"), "root": case.get("root")}
+    base = {"query": case["query"], "custom": case["custom"], "sdl": case.get("sdl", "full"), "operation_name": case.get("operation_name"), "root": case.get("root"), "disable_introspection": case.get("disable_introspection")}
     paths, ndef = S.invoked_paths(base)
     # top-level fields are serialised, so only the results of one sub-tree are ever pending together:
     # every completion order is affordable
@@ -195,7 +206,7 @@ def check_case(case, st):
         m = monitor(case["keys"], wref)
         if m:
             out.append(("blocking-opt/" + m.split(":")[0].split("(")[0], {"scn": scn, "keys": case["keys"], "config": "blocking-opt", "choices": []}, m))
-        for cfg in H.CONFIGS[1:] + (("entry-graphql", "entry-blocking") if not ov else ()):
+        for cfg in H.CONFIGS[1:] + (("entry-graphql", "entry-blocking") if (not ov and not case.get("disable_introspection")) else ()):
             bad = 0
             for choices, obs, world in S.schedules(cfg, scn, st, free=free, bound=(b["early_bound"] - (1 if ("m4" in case["query"] or (st.tier == "thorough" and len(case["keys"]) >= 3)) else 0)), max_execs=(3000 if st.tier == "quick" else 50000)):
                 st.n("evaluations")
